@@ -110,15 +110,16 @@ PROPS["C04"] = {
                   "the line at exactly s; curve_intersects_line is the filter 0<=s<=1; every root of the signed-distance cubic in [0,1] is reported given the solver contract; polish_root never increases "
                   "the residual and fixes exact roots; the solver dispatch is characterised. The distance cubic is proved to be the signed distance of the curve point. A root the solver places outside (-0.1, 1.1) is dropped before refinement (repair ca41cec; the theorems are about the repaired loop). line_clip_to_bounds (Props/C04Clip, about the literal hand model of the Liang-Barsky loop): clip_some_spec - a returned segment is (P(t1), P(t2)) with 0 <= t1 <= t2 <= 1, and a point P(t), 0 <= t <= 1, of the line lies in the box EXACTLY when t1 <= t <= t2 (the maximal sub-segment inside the box, for corner points in any order, zero-length lines and axis-parallel lines included); clip_none_spec - None means no point of the line is in the box; clipStep_means - one iteration of the edge loop keeps the meaning of (t1, t2).",
     "level_note": "The external solvers (crate roots) are a parameter: completeness is conditional on 'returns every real root'; for a small non-zero leading coefficient the code solves a quadratic and "
-                  "refines - an approximation covered only by the search (sign-change scan, 1e-6 / 0.001 tolerances). line_clip_to_bounds is a literal hand model (loop with early return over zipped arrays) tied by the exhaustive integer grid and the random correspondence; "
-                  "the Liang-Barsky theorems of Props/C04Clip are about that model. sqrt is an uninterpreted function in the theorems. " + COMMON_NOTE,
+                  "refines - an approximation covered only by the search (sign-change scan, 1e-6 / 0.001 tolerances). line_clip_to_bounds is GENERATED since session 4 (the loop with its early return over zipped arrays is a foldlRet; the driver compares the implementation with the generated function); "
+                  "the Liang-Barsky theorems of Props/C04Clip were written for the literal hand model Model/Clip.lean, generated_eq_model proves the generated function equal to it for every line and box, and "
+                  "generated_clip_some_spec / generated_clip_none_spec restate them for the generated code. sqrt is an uninterpreted function in the theorems. " + COMMON_NOTE,
     "rule": "corr: line pairs (dyadic integer grid and reals; parallel, collinear, shared end, T-junction, point line forced in), clip, line coefficients, and curve/line (hook H3 hands over the polynomial the implementation "
             "gave to the external solver and the raw roots it got back inside the same call: the generated function must have computed the same polynomial and must reproduce every hit - parameter, "
             "line position, point - bit for bit in Float). search: exhaustive integer grids for the three line functions and line_clip_to_bounds "
             "(maximal sub-segment by exact enumeration), then random curves incl. near-degenerate cubics (leading coefficient 1e-9.5..1e-6.5), exact quadratics, straight curves, against lines "
             "through end points / control points / curve points, axis-parallel: every hit on curve and on line (1e-6, 0.001 snapped), filter equality, every clear sign change on a 1/2000 grid reported. "
             "Non-trivial: an intersection exists; distinct by input.",
-    "trusted_base": ["external cubic/quadratic solver (crate roots) is a parameter with an explicit contract", "hand model Model/Clip.lean of line_clip_to_bounds", "hook H3 (solver-root sink in curve_intersects_ray)"],
+    "trusted_base": ["external cubic/quadratic solver (crate roots) is a parameter with an explicit contract", "Model/Clip.lean of line_clip_to_bounds (proved equal to the generated function: no longer trusted)", "hook H3 (solver-root sink in curve_intersects_ray)"],
     "assumptions": ["solver contract for completeness; exact arithmetic for the on-line statement"],
 }
 
